@@ -39,11 +39,11 @@ def compliance_dict_helper(
     complex_compliance_by_tidal_freq : Dict[FreqSig, ComplexArray]
     """
 
-    # Build fake dictionary so that njit can compile the function
+    # Build fake dictionary so that njit can compile the function. Its value must have the same type (scalar or
+    #  array) as the results stored below, which depends on all of the live inputs - not only on the compliance.
     fake_index = list(tidal_frequencies.keys())[0]
     fake_freq = tidal_frequencies[fake_index]
-    compliance = live_inputs[0]
-    complex_compliance_by_tidal_freq = {(-100, -100): fake_freq * compliance * (1. + 1.j)}
+    complex_compliance_by_tidal_freq = {(-100, -100): compliance_func(fake_freq, *live_inputs, *inputs)}
 
     # Find the complex compliance for each frequency
     for freq_sig, freq in tidal_frequencies.items():
